@@ -463,6 +463,8 @@ class Interp:
         self.cuts = []                # (node, text) operations that cut through a symbolic field
         self.hazards = []             # (node, text) substring tests whose outcome depends on user text
         self.token_syms = {'units'}  # symbols that stand for a text left open by the rule (unit strings)
+        self.track_print_precision = False   # rules that read numbers back from printed text switch this on
+        self.printed = {}            # PRINTED{spec}{value} atom -> (format spec, value that was printed)
         self.int_syms = set()        # symbols a rule declares to stand for Python ints (isinstance, np dtype)
         self.dtype_hazards = []      # stores of real values into buffers typed like a caller's container
         self.replace_hazards = []    # (node, old, field, remaining count): str.replace may reach into user text
@@ -579,6 +581,24 @@ class Interp:
                 else:
                     raise _RaisedExc(Raised('TypeError', fn))
         return env
+
+    def parsed_number(self, field, how='float'):
+        """the number read back from a printed value: the value itself when the format loses nothing (an integer
+        printed with d), otherwise the value as rounded by that format - a different number, named by the format"""
+        v, spec = field.value, (field.spec or '')
+        if not self.track_print_precision:
+            return v
+        plain = spec.lstrip('%').lstrip(' +-<>^0123456789,_')
+        integral = v.iszero() or (v.is_const() and v.const_value().denominator == 1) or \
+            (v.integer_coefficients() and v.atoms() and all(a_ in self.int_syms for a_ in v.atoms()))
+        if integral and (plain in ('', 'd', 's') or plain.endswith(('f', 'e', 'E', 'g', 'G'))):
+            return v            # whole numbers survive every numeric format (at the widths considered)
+        if v.is_const() or v.iszero():
+            return v            # concrete numbers are printed as literal text, not as fields
+        name = 'PRINTED{%s}{%r}' % (spec, v)
+        self.D.kind.setdefault(name, 'printed')
+        self.printed[name] = (spec, v)
+        return Rat.atom(name)
 
     def call_native(self, name, fr, args, kwargs, n):
         """a modelled library function; every keyword argument must be one the model reads (or is listed as having no
@@ -1190,6 +1210,8 @@ class Interp:
     def truth(self, v, node=None):
         if isinstance(v, bool):
             return v
+        if isinstance(v, RealTest):
+            return True         # the analysis follows the real roots
         if getattr(v, 'ambiguous_eq', False):
             raise Unsupported('truth value of number == sequence (depends on whether the number is a numpy value)',
                               node)
@@ -2087,9 +2109,19 @@ class Frame:
         if isinstance(it, Elem):
             sub = Frame(self.I, self.module, dict(self.env), self.owner, self.self_obj)
             sub.assign(g.target, it.r)
+            selected = None
             for cond in g.ifs:
-                if not self.I.truth(sub.ev(cond), cond):
+                cv = sub.ev(cond)
+                if isinstance(cv, RealTest):
+                    selected = cv.atom
+                if not self.I.truth(cv, cond):
                     raise Unsupported('filter rejects the generic element', n, self.module.relpath)
+            if selected is not None:
+                # [x for x in roots if np.isreal(x)]: the entries that pass are the real roots
+                if _root_atom(self.I, it.r) != selected:
+                    raise Unsupported('np.isreal filter on something other than the loop variable', n,
+                                      self.module.relpath)
+                sub.assign(g.target, Rat.atom(_real_roots(self.I, selected)))
             return Elem(sub.ev(n.elt))
         out = []
         for item in self.iter_items(it, n):
@@ -2231,6 +2263,11 @@ class Frame:
         if isinstance(base, (ListV, str)) and isinstance(idx, str):
             raise _RaisedExc(Raised('TypeError', n))        # list/str indices must be integers
         if isinstance(base, Elem) and isinstance(idx, Elem) and getattr(idx, 'mask_all', False):
+            ra = getattr(idx, 'real_of', None)
+            if ra is not None:
+                if _root_atom(self.I, base.r) != ra:
+                    raise Unsupported('a real-root mask applied to another vector', n)
+                return Elem(Rat.atom(_real_roots(self.I, ra)))
             return base
         if isinstance(base, Elem) and getattr(base, 'kind', None) is not None and isinstance(base.r, Rat) \
                 and isinstance(idx, Rat):
@@ -2308,8 +2345,9 @@ class Frame:
             tv_ = nd_transpose(base, list(reversed(range(len(sh)))))
             tv_.view_of = (base, list(reversed(range(len(sh)))))
             return tv_
-        if isinstance(base, (ListV, Elem, Rat)) and n.attr == 'real' and (
-                not isinstance(base, ListV) or getattr(base, 'is_array', False)):
+        if isinstance(base, (Elem, Rat)) and n.attr == 'real':
+            return _np_real(I, self, [base], {}, n)
+        if isinstance(base, ListV) and n.attr == 'real' and getattr(base, 'is_array', False):
             return base
         if isinstance(base, (ListV, Elem, Rat, SumV, DictV, str, SegStr, TableRef, bool)):
             return BoundNative(base, n.attr)
@@ -2632,7 +2670,12 @@ class TableRef:
                 if want is not None and k is not None and const_key(k) == want:
                     hit = v          # later duplicate keys win
             if hit is not None:
-                return Frame(frame.I, self.module, {}, None, None).ev(hit)
+                # the entry's value is created once per interpreter (at import in Python): a mutable entry that is
+                # modified in place keeps the modification for every later lookup
+                key = ('table-entry', self.module.name, id(hit))
+                if key not in frame.I.module_globals:
+                    frame.I.module_globals[key] = Frame(frame.I, self.module, {}, None, None).ev(hit)
+                return frame.I.module_globals[key]
         if isinstance(idx, str) or (
                 want is not None and all(k is not None and const_key(k) is not None for node in nodes for k in node.keys)):
             raise _RaisedExc(Raised('KeyError', n))
@@ -2761,7 +2804,7 @@ def builtin_call(I, fr, name, args, kwargs, n):
         sv = I.seg(args[0]).strip()
         f = sv.single_field()
         if f is not None and f.cls == 'num' and isinstance(f.value, Rat):
-            return f.value
+            return I.parsed_number(f, name)
         if sv.is_literal():
             try:
                 return C(token_num(sv.literal()).v)
@@ -4125,47 +4168,85 @@ def _np_roots(I, fr, args, kwargs, n):
     return Elem(Rat.atom(name))
 
 
+class RealTest:
+    """outcome of np.isreal on a root of a polynomial: true for the real roots - the analysis follows those, and a
+    selection made with this test (a filter in a comprehension, a boolean mask) yields the real roots REAL{...}"""
+
+    def __init__(self, atom):
+        self.atom = atom
+
+
+def _root_atom(I, r):
+    if isinstance(r, Rat) and r.is_monomial():
+        at = list(r.atoms())
+        if len(at) == 1 and at[0] in I.roots and r.eq(Rat.atom(at[0])):
+            return at[0]
+    return None
+
+
+def _real_roots(I, atom):
+    if atom.startswith('REAL{'):
+        return atom
+    name = 'REAL{%s}' % atom
+    I.roots[name] = I.roots[atom]
+    I.D.kind[name] = 'root'
+    return name
+
+
 def _np_isreal(I, fr, args, kwargs, n):
     v = args[0]
     if isinstance(v, Rat):
-        for a_ in v.atoms():
-            I.real_checked.add(a_)
-        return True       # the analysis follows the real roots
+        at = _root_atom(I, v)
+        if at is not None:
+            return True if at.startswith('REAL{') else RealTest(at)
+        if not any(a_ in I.roots for a_ in v.atoms()):
+            return True       # real quantities
     if isinstance(v, Elem) and isinstance(v.r, Rat):
-        for a_ in v.r.atoms():
-            I.real_checked.add(a_)
-        m_ = Elem(C(1))
-        m_.mask_all = True          # a mask that keeps the (real) entries the analysis follows
-        return m_
+        at = _root_atom(I, v.r)
+        if at is not None:
+            m_ = Elem(C(1))
+            m_.mask_all = True          # a mask that keeps the real entries
+            m_.real_of = at
+            return m_
     raise Unsupported('np.isreal operand', n)
 
 
 def _np_real(I, fr, args, kwargs, n):
-    """real part: the identity on values already known to be real; of a polynomial root that has not been tested
-    with np.isreal it is a different number (the real part of a complex-conjugate pair is no root)"""
+    """real part: the identity on values known to be real; of a polynomial root that was not selected with np.isreal it
+    is a different number (the real part of a complex-conjugate pair is no root)"""
     v = args[0]
+    if isinstance(v, ListV) and not getattr(v, 'is_array', False) and len(v.items) == 1 and \
+            isinstance(v.items[0], VecItem):
+        v = _vec_norm(v)
     r = v.r if isinstance(v, Elem) else v
-    if isinstance(r, Rat) and r.is_monomial():
-        at = list(r.atoms())
-        if len(at) == 1 and at[0] in I.roots and r.eq(Rat.atom(at[0])) and at[0] not in I.real_checked \
-                and not at[0].startswith('RE{'):
-            name = 'RE{%s}' % at[0]
-            I.roots[name] = I.roots[at[0]]
-            I.D.kind[name] = 'root'
-            return Elem(Rat.atom(name)) if isinstance(v, Elem) else Rat.atom(name)
+    at = _root_atom(I, r)
+    if at is not None and not at.startswith('REAL{') and not at.startswith('RE{'):
+        name = 'RE{%s}' % at
+        I.roots[name] = I.roots[at]
+        I.D.kind[name] = 'root'
+        return Elem(Rat.atom(name)) if isinstance(v, Elem) else Rat.atom(name)
+    if isinstance(r, Rat) and at is None and any(a_ in I.roots and not a_.startswith(('REAL{', 'MAX{REAL', 'MIN{REAL'))
+                                                 for a_ in r.atoms()):
+        raise Unsupported('real part of an expression in unfiltered polynomial roots', n)
     return v
 
 
 def _np_minmax(which):
     def h(I, fr, args, kwargs, n):
         v = _arg(args, kwargs, 0, 'a')
+        initial = kwargs.get('initial')
         if isinstance(v, Elem) and isinstance(v.r, Rat) and v.r.is_monomial():
             at = list(v.r.atoms())
             if len(at) == 1 and at[0] in I.roots and v.r.eq(Rat.atom(at[0])):
                 name = '%s{%s}' % (which.upper(), at[0])
+                if initial is not None:
+                    # the extremum of the entries and of the start value: another number than the extremum itself
+                    name = '%s{%s | initial=%r}' % (which.upper(), at[0], initial)
                 I.roots[name] = I.roots[at[0]]
                 I.D.kind[name] = 'root'
                 return Rat.atom(name)
+        if initial is not None:
+            raise Unsupported('np.%s(..., initial=...) of this operand' % which, n)
         if isinstance(v, ListV) and not v.items:
             raise _RaisedExc(Raised('ValueError', n))       # zero-size array to reduction operation
         if isinstance(v, ListV) and v.items:
